@@ -52,7 +52,7 @@ META = {
             "gaps, strobe delays 1..6; descriptor: 6 canned collections, 3-10 requests with wLength around the descriptor "
             "length and around multiples of 4, unknown types/indices, ready density 30-100 %",
 }
-TIERS = {"quick": {"runs": 5000, "wall": 70}, "thorough": {"runs": 60000, "wall": 900}}
+TIERS = {"quick": {"runs": 15000, "wall": 70}, "thorough": {"runs": 60000, "wall": 900}}
 
 REPORT_WINDOW = 4          # cycles after rx_good within which the report must appear
 RESP_START = 8             # cycles after start within which the response / stall must appear
